@@ -7,7 +7,7 @@ import numpy as np
 import z3
 
 from .. import core, gen_graph as gg, loader, symx
-from ..symx import SymReal, band, sym_real
+from ..symx import SymReal, band, bor, sym_real
 from .c18 import SymVec
 
 
@@ -21,6 +21,27 @@ class Placement:
     def reset(self):
         self.placed = None
         self.norms = []     # (vector components, L)
+        self.angles = []    # fresh reals in [0, 180] returned by vector_angle_degrees
+        self.rots = []      # fresh (c, s) used by rotate_degrees
+
+    def angle(self):
+        a = sym_real('angle%d' % len(self.angles))
+        symx.ENG.add(a.e >= 0)
+        symx.ENG.add(a.e <= 180)
+        self.angles.append(a)
+        return a
+
+    def rotate(self, points, origin):
+        """rotation about ``origin`` by an arbitrary angle: (c, s) fresh; c*c + s*s = 1 is used for the witness and in
+        the isometry lemma only (the scale identity does not need it)"""
+        c = sym_real('rot%dc' % len(self.rots))
+        s_ = sym_real('rot%ds' % len(self.rots))
+        self.rots.append((c, s_))
+        out = []
+        for p in points:
+            dx, dy = p.xs[0] - origin.xs[0], p.xs[1] - origin.xs[1]
+            out.append(SymVec([origin.xs[0] + c * dx - s_ * dy, origin.xs[1] + s_ * dx + c * dy]))
+        return out
 
     def layout(self, graph):
         if self.placed is None:
@@ -45,40 +66,68 @@ PLACE = Placement()
 class C19(core.Prop):
     ID = 'C19'
     MODULES = loader.CORE + loader.LAYOUT
-    FUNCTIONS = ['vespr_layout', 'check_and_fix_cis_trans']
+    FUNCTIONS = ['vespr_layout', 'check_and_fix_cis_trans', 'rotate_subgraph', '_angle']
     STUBS = ['nx.fruchterman_reingold_layout and nx.kamada_kawai_layout return an arbitrary finite position per node (assumed: the mean '
              'bond length of the placement is > 0)', 'np.linalg.norm(v): fresh L >= 0 with L*L = v.v over exact reals',
-             'numpy 2-vectors replaced by exact-real vectors; division by a symbolic term eliminated by a fresh quotient q with q*d = n']
+             'numpy 2-vectors replaced by exact-real vectors; division by a symbolic term eliminated by a fresh quotient q with q*d = n',
+             'linalg_functions.vector_angle_degrees: an arbitrary angle in [0, 180] (arccos is transcendental); np.isclose(a, 120, atol=10) '
+             'decided on that real; linalg_functions.rotate_degrees: rotation about the given origin by an arbitrary (cos, sin) pair '
+             '(c*c + s*s = 1 only in the witness): both over-approximate the real kernels, so a violation is reported only if the '
+             'unmodified kernels reproduce it on the concrete witness']
     ASSUMPTIONS = ['REDUCED claim: finiteness and non-coincidence of the positions produced by the placement engines (iterative floating-point '
                    'optimisation with its own RNG inside networkx/scipy) are the stub contract, not decided here',
-                   'graphs carry no ez_isomer attributes (the cis/trans rotation uses transcendental functions)',
+                   'ez_isomer annotations as the resolver writes them: item (n1, n2, n3, n4, type) on n1 and the reversed item on n4',
                    'real arithmetic instead of floats',
                    'witness validation runs the unmodified cgsmiles.graph_layout with the same stubs on concrete rational positions whose '
                    'norms are computed in floating point (compared with tolerance 1e-6)']
-    OUTSIDE = ['the placement itself (Fruchterman-Reingold / Kamada-Kawai numerics)', 'cis/trans correction', 'align_with rotation']
+    OUTSIDE = ['the placement itself (Fruchterman-Reingold / Kamada-Kawai numerics)', 'that rotated subgraphs do not land on other nodes',
+               'align_with rotation']
     BOUNDS = {
         'quick': 'all connected graphs with 2-4 nodes and chains/rings/stars with 5 nodes, each in 3 labelings (atlas keys, reversed '
-                 'insertion order, non-contiguous keys); default_bond symbolic > 0',
+                 'insertion order, non-contiguous keys); 3 graphs with a cis or trans annotated double bond (chain, substituted, in a ring) in '
+                 '2 labelings; default_bond symbolic > 0',
         'thorough': 'all connected graphs with 2-5 nodes (all labelings <= 4 nodes, 6 for 5 nodes) and chains, rings, stars, fused rings '
-                    'with 6-7 nodes',
+                    'with 6-7 nodes; 6 annotated graphs (two double bonds, next to a ring, with hydrogens) x cis/trans x 3 labelings x 2 key sets',
     }
-    LEVEL_TEXT = ('Bounded and REDUCED: with the placement engines replaced by arbitrary positions, z3 (QF_NRA) decides per graph and labeling '
-                  'that vespr_layout returns exactly one position per node, each equal to its placed position times one common factor f > 0 with '
-                  'f * mean(norms requested for exactly the graph\'s edges) = default_bond; two lemmas discharged once per run (norm homogeneity, '
-                  'mean of scaled lengths) turn that into "mean bond length = default_bond".')
-    TECHNIQUE = 'symbolic execution of vespr_layout against stubbed placement with symbolic positions and bond length; scale identity + NRA lemmas; z3'
+    LEVEL_TEXT = ('Bounded and REDUCED: with the placement engines replaced by arbitrary positions (and angle/rotation kernels by arbitrary '
+                  'angles/rotations), z3 (QF_NRA) decides per graph, labeling and cis/trans branch that vespr_layout returns exactly one position '
+                  'per node and that every returned bond vector equals one common factor f > 0 times the vector whose norm went into the mean, '
+                  'with f * mean(norms requested for exactly the caller\'s edges) = default_bond; two lemmas discharged once per run (norm '
+                  'homogeneity, mean of scaled lengths) turn that into "mean bond length = default_bond".')
+    TECHNIQUE = ('symbolic execution of vespr_layout incl. cis/trans rotation against stubbed placement with symbolic positions, angles, '
+                 'rotations and bond length; scale identity + NRA lemmas; z3')
     MAX_PATHS = 200
 
     def setup_shadow(self, SH):
         mod = SH.graph_layout
         real_np = np
 
+        angle_f = SH.linalg_functions.vector_angle_degrees
+        rot_f = SH.linalg_functions.rotate_degrees
+
         def pred(f, a, kw):
-            return f in (nx.fruchterman_reingold_layout, nx.kamada_kawai_layout, real_np.linalg.norm)
+            if f is real_np.array:
+                return len(a) == 1 and isinstance(a[0], list) and a[0] and all(isinstance(x, SymVec) for x in a[0])
+            if f is real_np.isclose:
+                return symx.is_sym(a[0])
+            return f in (nx.fruchterman_reingold_layout, nx.kamada_kawai_layout, real_np.linalg.norm, angle_f, rot_f)
 
         def handler(f, a, kw):
             if f is real_np.linalg.norm:
                 return PLACE.norm(a[0])
+            if f is angle_f:
+                return PLACE.angle()
+            if f is rot_f:
+                return PLACE.rotate(list(a[0]), kw['origin'] if 'origin' in kw else a[2])
+            if f is real_np.array:
+                return list(a[0])
+            if f is real_np.isclose:
+                # |a - b| <= atol + rtol * |b| with numpy's default rtol = 1e-5 (b and atol are literals in the code)
+                from fractions import Fraction
+                b, atol = a[1], kw.get('atol', 1e-8)
+                tol = Fraction(atol).limit_denominator(10 ** 9) + Fraction(1, 100000) * abs(Fraction(b))
+                lo, hi = Fraction(b) - tol, Fraction(b) + tol
+                return band(a[0] >= lo, a[0] <= hi)
             return PLACE.layout(a[0])
         symx.RT.call_hooks = [(pred, handler)]
         symx.RT.set_order_hook = None
@@ -120,6 +169,12 @@ class C19(core.Prop):
             cs.append(symx._real_term(v.xs[1]) == 0)
         for vec, L, dot in PLACE.norms:
             cs.append(L.e * L.e == symx._real_term(dot))
+        # angles away from the tolerance boundary of np.isclose; rotations by a rational point of the unit circle
+        for a in PLACE.angles:
+            cs.append(z3.Or(a.e == 120, a.e == 60))
+        for c, s_ in PLACE.rots:
+            cs.append(symx._real_term(c) == z3.Q(3, 5))
+            cs.append(symx._real_term(s_) == z3.Q(4, 5))
         return cs
 
     def shapes(self, tier):
@@ -144,6 +199,26 @@ class C19(core.Prop):
             for p in perms:
                 out.append({'edges': [list(e) for e in edges], 'n': n, 'perm': p, 'stride': 1})
             out.append({'edges': [list(e) for e in edges], 'n': n, 'perm': list(range(n)), 'stride': 5})
+        # graphs with cis/trans annotations (check_and_fix_cis_trans rotates subgraphs): item (n1, n2, n3, n4, type) on n1 and the
+        # reversed item on n4, as the resolver writes them
+        ez_graphs = [
+            ([(0, 1), (1, 2), (2, 3)], [(0, 1, 2, 3)]),                                   # F/C=C/F
+            ([(0, 1), (1, 2), (2, 3), (1, 4), (2, 5)], [(0, 1, 2, 3)]),                   # with a substituent on either carbon
+            ([(0, 1), (1, 2), (2, 3), (3, 4), (4, 5), (5, 0)], [(0, 1, 2, 3)]),           # the stereo bond inside a ring
+        ]
+        if not q:
+            ez_graphs += [
+                ([(0, 1), (1, 2), (2, 3), (3, 4), (4, 5)], [(0, 1, 2, 3), (2, 3, 4, 5)]),                 # two double bonds in a row
+                ([(0, 1), (1, 2), (2, 3), (3, 4), (4, 5), (5, 0), (2, 6), (6, 7)], [(1, 2, 6, 7)]),       # stereo bond next to a ring
+                ([(0, 1), (1, 2), (2, 3), (0, 4), (0, 5), (3, 6)], [(0, 1, 2, 3)]),                       # hydrogens on the ends
+            ]
+        for edges, items in ez_graphs:
+            n = max(max(e) for e in edges) + 1
+            for kinds in itertools.product(('cis', 'trans'), repeat=len(items)):
+                for p in ([list(range(n)), list(reversed(range(n)))] + ([] if q else [list(range(1, n)) + [0]])):
+                    for stride in ((1,) if q else (1, 5)):
+                        out.append({'edges': [list(e) for e in edges], 'n': n, 'perm': p, 'stride': stride,
+                                    'ez': [list(it) + [k] for it, k in zip(items, kinds)]})
         return out
 
     def build(self, shape):
@@ -160,6 +235,9 @@ class C19(core.Prop):
             g.add_node(key(i))
         for a, b in shape['edges']:
             g.add_edge(key(a), key(b))
+        for n1, n2, n3, n4, kind in shape.get('ez', []):
+            g.nodes[key(n1)].setdefault('ez_isomer', []).append((key(n1), key(n2), key(n3), key(n4), kind))
+            g.nodes[key(n4)].setdefault('ez_isomer', []).append((key(n4), key(n3), key(n2), key(n1), kind))
         return g
 
     def execute(self, M, shape, inp):
@@ -167,19 +245,46 @@ class C19(core.Prop):
         if getattr(M, 'is_shadow', False):
             r = core.guard(M.graph_layout.vespr_layout, g, default_bond=inp['bond'])
             inp['placed'] = {str(n): list(v.xs) for n, v in (PLACE.placed or {}).items()}
+            inp['angles'] = list(PLACE.angles)
+            inp['rots'] = [list(r) for r in PLACE.rots]
             # stub contract: the placement has a positive mean bond length
             if r[0] == 'ok':
                 return ('ok', {str(n): (list(v.xs) if isinstance(v, SymVec) else [float(x) for x in v]) for n, v in r[1].items()})
             return r
-        # real code, same stubs, concrete rational placement
+        self._OR = M
+        return self._real_run(M, shape, inp, stub_linalg=True)
+
+    def _real_run(self, M, shape, inp, stub_linalg):
+        """real code on a concrete rational placement.  With ``stub_linalg`` the angle and rotation kernels return the
+        concretised stub values in call order (same environment as the symbolic run); without, only the placement
+        engines are replaced."""
+        g = self._graph(shape)
         placed = {n: np.array([float(x) for x in (inp['placed'] or {}).get(str(n), [0.0, 0.0])]) for n in g.nodes}
         o1, o2 = nx.fruchterman_reingold_layout, nx.kamada_kawai_layout
         nx.fruchterman_reingold_layout = lambda graph, **kw: {n: v.copy() for n, v in placed.items()}
         nx.kamada_kawai_layout = lambda graph, **kw: {n: v.copy() for n, v in placed.items()}
+        U = M.graph_layout_utils
+        o3, o4 = U.vector_angle_degrees, U.rotate_degrees
+        if stub_linalg:
+            angles = [float(a) for a in inp.get('angles') or []]
+            rots = [(float(c), float(s_)) for c, s_ in inp.get('rots') or []]
+            count = {'a': 0, 'r': 0}
+
+            def angle_stub(v1, v2):
+                count['a'] += 1
+                return angles[count['a'] - 1]
+
+            def rot_stub(position, angle, origin=np.array([0, 0])):
+                c, s_ = rots[count['r']]
+                count['r'] += 1
+                d = np.asarray(position) - origin
+                return np.column_stack((c * d[:, 0] - s_ * d[:, 1], s_ * d[:, 0] + c * d[:, 1])) + origin
+            U.vector_angle_degrees, U.rotate_degrees = angle_stub, rot_stub
         try:
             r = core.guard(M.graph_layout.vespr_layout, g, default_bond=float(inp['bond']))
         finally:
             nx.fruchterman_reingold_layout, nx.kamada_kawai_layout = o1, o2
+            U.vector_angle_degrees, U.rotate_degrees = o3, o4
         if r[0] == 'ok':
             return ('ok', {str(n): [float(x) for x in v] for n, v in r[1].items()})
         return r
@@ -198,21 +303,16 @@ class C19(core.Prop):
             return cl
         symbolic = any(symx.is_sym(x) for v in ret.values() for x in v)
         if symbolic:
-            # the norms requested by the code are those of exactly the graph's edges
+            # the norms requested by the code are those of exactly the graph's edges (the graph as the caller passed it)
             edges = list(g.edges)
             ok = len(PLACE.norms) == len(edges)
             cl.append(('norms_requested_for_exactly_the_edges', ok))
             if not ok:
                 return cl
-            conds = []
-            for (a, b), (vec, L, _dot) in zip(edges, PLACE.norms):
-                pa, pb = placed[str(a)], placed[str(b)]
-                conds.append(band(*[gg.val_eq(vec[c], pa[c] - pb[c]) for c in range(2)]))
-            cl.append(('norm_arguments_are_edge_vectors', band(*conds)))
             total = None
             for _vec, L, _dot in PLACE.norms:
                 total = L if total is None else total + L
-            mean = total * (1.0 / len(edges)) if False else SymReal.mk(symx._real_term(total) / len(edges))
+            mean = SymReal.mk(symx._real_term(total) / len(edges))
             # the common factor is the quotient the code itself formed: default_bond / mean(requested norms)
             quots = symx.ENG.memo.get('quotients', [])
             cl.append(('one_division', len(quots) == 1))
@@ -224,12 +324,15 @@ class C19(core.Prop):
                        band(symx.mkbool(num == symx._real_term(inp['bond'])), symx.mkbool(den == symx._real_term(mean)))))
             symx.ENG.assume(mean > 0)
             cl.append(('factor_positive', F > 0))
-            for n in g.nodes:
-                cl.append(('position_is_placement_times_common_factor',
-                           band(*[gg.val_eq(ret[str(n)][c], placed[str(n)][c] * F) for c in range(2)])))
+            # every returned bond vector is the common factor times the vector whose norm went into the mean (either direction)
+            for (a, b), (vec, _L, _dot) in zip(edges, PLACE.norms):
+                ra, rb = ret[str(a)], ret[str(b)]
+                fwd = band(*[gg.val_eq(ra[c] - rb[c], vec[c] * F) for c in range(2)])
+                bwd = band(*[gg.val_eq(rb[c] - ra[c], vec[c] * F) for c in range(2)])
+                cl.append(('returned_bond_vector_is_factor_times_averaged_vector', bor(fwd, bwd)))
             cl.append(('lemmas_hold', all(v == 'unsat' for k, v in self._lemmas.items() if not k.startswith('_'))))
             return cl
-        if not placed:
+        if not placed and symx.is_sym(inp['bond']):
             # the code returned positions without consulting the placement: they must already be at the requested scale
             tot = 0.0
             for a, b in g.edges:
@@ -237,21 +340,38 @@ class C19(core.Prop):
                 tot += ((pa[0] - pb[0]) ** 2 + (pa[1] - pb[1]) ** 2) ** 0.5
             cl.append(('mean_bond_length_is_default_bond', gg.val_eq(inp['bond'], tot / g.number_of_edges())))
             return cl
-        # concrete replay: mean bond length of the returned positions equals default_bond
+        # concrete replay: mean bond length of the returned positions over the caller's edges equals default_bond
+        bad = self._concrete_clauses(g, inp, ret)
+        if shape.get('ez') and not all(c for _n, c in bad) and getattr(self, '_OR', None) is not None and not getattr(self, '_in_real', False):
+            # the angle and rotation kernels were over-approximated: a violation counts only if the unmodified kernels show it too
+            self._in_real = True
+            try:
+                r2 = self._real_run(self._OR, shape, inp, stub_linalg=False)
+            finally:
+                self._in_real = False
+            if r2[0] != 'ok':
+                return cl + [('no_exception_with_real_kernels', False)]
+            bad2 = self._concrete_clauses(g, inp, r2[1])
+            if all(c for _n, c in bad2):
+                raise symx.Unsupported('violation only under the over-approximated angle/rotation kernels; not shown by the real ones')
+        return cl + bad
+
+    @staticmethod
+    def _concrete_clauses(g, inp, ret):
         tot = 0.0
         for a, b in g.edges:
             pa, pb = ret[str(a)], ret[str(b)]
             tot += ((pa[0] - pb[0]) ** 2 + (pa[1] - pb[1]) ** 2) ** 0.5
         mean = tot / g.number_of_edges()
-        cl.append(('mean_bond_length_is_default_bond', abs(mean - float(inp['bond'])) <= 1e-6 * max(1.0, float(inp['bond']))))
-        cl.append(('finite', all(abs(x) < 1e300 for v in ret.values() for x in v)))
-        return cl
+        return [('mean_bond_length_is_default_bond', bool(abs(mean - float(inp['bond'])) <= 1e-6 * max(1.0, float(inp['bond'])))),
+                ('finite', all(abs(x) < 1e300 for v in ret.values() for x in v))]
 
     def sample(self, shape, cinp):
-        return {'edges': shape['edges'], 'perm': shape['perm'], 'stride': shape['stride'], 'default_bond': str(cinp['bond']),
+        return {'edges': shape['edges'], 'perm': shape['perm'], 'stride': shape['stride'], 'ez': shape.get('ez'), 'default_bond': str(cinp['bond']),
                 'placed': {k: [str(x) for x in v] for k, v in (cinp.get('placed') or {}).items()}}
 
     MUTANTS = {
+        'rotation_cuts_the_callers_graph': {'graph_layout_utils': ("    graph_copy = nx.subgraph(graph, graph.nodes).copy()\n", "    graph_copy = graph\n")},
         'mean_over_nodes': {'graph_layout': ("    avg_dist = avg_dist / len(graph.edges)", "    avg_dist = avg_dist / len(graph.nodes)")},
         'first_edge_skipped': {'graph_layout': ("    for edge in graph.edges:\n        avg_dist += np.linalg.norm(pos[edge[0]]-pos[edge[1]])",
                                                 "    for edge in list(graph.edges)[1:]:\n        avg_dist += np.linalg.norm(pos[edge[0]]-pos[edge[1]])")},
